@@ -72,6 +72,8 @@ type vfC13Begin struct {
 	Idem    bool     `json:"idem"`
 	Policy  string   `json:"policy"`
 	Mode    string   `json:"mode"`
+	Stmt    string   `json:"stmt"`
+	Obs     bool     `json:"observer"`
 }
 
 type vfC13Summary struct {
@@ -131,7 +133,9 @@ type vfC13Run struct {
 	polName string
 
 	maxDelay  time.Duration
-	retLogged bool // the return event has been logged (mu)
+	retLogged bool   // the return event has been logged (mu)
+	stmt      string // "query" | "batch"
+	observer  bool
 }
 
 func vfC13Gid() int64 {
@@ -262,22 +266,56 @@ func (r *vfC13Run) classOfAid(aid int, err error) string {
 	return c
 }
 
-// ---------------------------------------------------------------- the fake query
+// ---------------------------------------------------------------- the fake statements
+
+// Both real statement kinds are driven: vfC13Query embeds a real *Query, vfC13Batch a real
+// *Batch; only the wire-level execute step is replaced.  Their REAL attempt() methods feed the
+// shared counter (Attempts()), with and without an observer installed.
+type vfC13Core struct {
+	vrun *vfC13Run
+	vrt  RetryPolicy
+}
 
 type vfC13Query struct {
 	*Query
-	run *vfC13Run
-	rt  RetryPolicy
+	vfC13Core
 }
 
-func (q *vfC13Query) retryPolicy() RetryPolicy { return q.rt }
+type vfC13Batch struct {
+	*Batch
+	vfC13Core
+}
 
-func (q *vfC13Query) borrowForExecution() { q.run.wg.Add(1) }
-
-func (q *vfC13Query) releaseAfterExecution() { q.run.wg.Done() }
-
+func (q *vfC13Query) retryPolicy() RetryPolicy { return q.vrt }
+func (q *vfC13Query) borrowForExecution()      { q.vrun.wg.Add(1) }
+func (q *vfC13Query) releaseAfterExecution()   { q.vrun.wg.Done() }
 func (q *vfC13Query) execute(ctx context.Context, conn *Conn) *Iter {
-	r := q.run
+	return q.vrun.doExecute(ctx, conn)
+}
+func (q *vfC13Query) attempt(keyspace string, end, start time.Time, iter *Iter, host *HostInfo) {
+	q.vrun.doAttempt(func() { q.Query.attempt(keyspace, end, start, iter, host) }, iter, host)
+}
+
+func (b *vfC13Batch) retryPolicy() RetryPolicy { return b.vrt }
+func (b *vfC13Batch) borrowForExecution()      { b.vrun.wg.Add(1) }
+func (b *vfC13Batch) releaseAfterExecution()   { b.vrun.wg.Done() }
+func (b *vfC13Batch) execute(ctx context.Context, conn *Conn) *Iter {
+	return b.vrun.doExecute(ctx, conn)
+}
+func (b *vfC13Batch) attempt(keyspace string, end, start time.Time, iter *Iter, host *HostInfo) {
+	b.vrun.doAttempt(func() { b.Batch.attempt(keyspace, end, start, iter, host) }, iter, host)
+}
+
+// observer installed on half of the statements (the real attempt() takes another path then)
+type vfC13Obs struct {
+	mu sync.Mutex
+	n  int
+}
+
+func (o *vfC13Obs) ObserveQuery(context.Context, ObservedQuery) { o.mu.Lock(); o.n++; o.mu.Unlock() }
+func (o *vfC13Obs) ObserveBatch(context.Context, ObservedBatch) { o.mu.Lock(); o.n++; o.mu.Unlock() }
+
+func (r *vfC13Run) doExecute(ctx context.Context, conn *Conn) *Iter {
 	e := r.exec()
 	r.park(e, "start")
 	r.mu.Lock()
@@ -352,12 +390,11 @@ func (q *vfC13Query) execute(ctx context.Context, conn *Conn) *Iter {
 }
 
 // attempt: the real metrics update and the "end" event in one critical section
-func (q *vfC13Query) attempt(keyspace string, end, start time.Time, iter *Iter, host *HostInfo) {
-	r := q.run
+func (r *vfC13Run) doAttempt(real func(), iter *Iter, host *HostInfo) {
 	r.mu.Lock()
 	e := r.execLocked()
 	aid := r.iters[iter]
-	q.Query.attempt(keyspace, end, start, iter, host)
+	real()
 	class := "ok"
 	if iter.err != nil {
 		class = r.classOfAid(aid, iter.err)
@@ -500,11 +537,11 @@ func (c vfC13Cfg) outsFree() []string {
 
 // ---------------------------------------------------------------- set-up
 
-func vfC13NewRun(cfg vfC13Cfg, seed int64, free bool, polName string, roundRobin bool) (*vfC13Run, *queryExecutor, *vfC13Query) {
+func vfC13NewRun(cfg vfC13Cfg, seed int64, free bool, polName string, roundRobin bool, stmt string, observer bool) (*vfC13Run, *queryExecutor, ExecutableQuery) {
 	r := &vfC13Run{cfg: cfg, rng: rand.New(rand.NewSource(seed)), free: free,
 		hostIdx: map[*HostInfo]int{}, kindOf: map[*HostInfo]string{}, gids: map[int64]int{}, natt: map[int]int{},
 		iters: map[*Iter]int{}, errs: map[error]int{}, curH: map[int]int{}, parkCh: make(chan *vfC13Gate, 16),
-		outcome: map[int]string{}, made: map[int]string{}, polName: polName, maxDelay: 300 * time.Microsecond}
+		outcome: map[int]string{}, made: map[int]string{}, polName: polName, stmt: stmt, observer: observer, maxDelay: 300 * time.Microsecond}
 	pool := &policyConnPool{hostConnPools: map[string]*hostConnPool{}, keyspace: "vf"}
 	for i, kind := range cfg.Hosts {
 		h := &HostInfo{hostId: fmt.Sprintf("vfc13-host-%d", i+1), connectAddress: net.IPv4(10, 13, 0, byte(i+1)),
@@ -544,18 +581,36 @@ func vfC13NewRun(cfg vfC13Cfg, seed int64, free bool, polName string, roundRobin
 	ex := &queryExecutor{pool: pool, policy: &vfC13Policy{HostSelectionPolicy: inner, run: r}}
 
 	r.ctx, r.cancel = context.WithCancel(context.Background())
-	q := &Query{stmt: "vf-c13", refCount: 1, metrics: &queryMetrics{m: map[string]*hostMetrics{}},
-		routingInfo: &queryRoutingInfo{}, idempotent: cfg.Idem, context: r.ctx, cons: Quorum}
+	var spec SpeculativeExecutionPolicy = &NonSpeculativeExecution{}
 	if cfg.K > 0 {
 		d := time.Duration(2+r.rng.Intn(3)) * time.Millisecond
 		if free {
 			d = time.Duration(30+r.rng.Intn(400)) * time.Microsecond
 		}
-		q.spec = &SimpleSpeculativeExecution{NumAttempts: cfg.K, TimeoutDelay: d}
-	} else {
-		q.spec = &NonSpeculativeExecution{}
+		spec = &SimpleSpeculativeExecution{NumAttempts: cfg.K, TimeoutDelay: d}
 	}
-	fq := &vfC13Query{Query: q, run: r}
+	core := vfC13Core{vrun: r}
+	var fq ExecutableQuery
+	var setRT func(RetryPolicy)
+	obs := &vfC13Obs{}
+	if stmt == "batch" {
+		b := &Batch{Type: UnloggedBatch, Cons: Quorum, spec: spec, context: r.ctx, keyspace: "vf",
+			metrics: &queryMetrics{m: map[string]*hostMetrics{}}, routingInfo: &queryRoutingInfo{},
+			Entries: []BatchEntry{{Stmt: "vf-c13-a", Idempotent: cfg.Idem}, {Stmt: "vf-c13-b", Idempotent: cfg.Idem}}}
+		if observer {
+			b.observer = obs
+		}
+		fb := &vfC13Batch{Batch: b, vfC13Core: core}
+		fq, setRT = fb, func(p RetryPolicy) { fb.vrt = p }
+	} else {
+		q := &Query{stmt: "vf-c13", refCount: 1, metrics: &queryMetrics{m: map[string]*hostMetrics{}},
+			routingInfo: &queryRoutingInfo{}, idempotent: cfg.Idem, context: r.ctx, cons: Quorum, spec: spec}
+		if observer {
+			q.observer = obs
+		}
+		f := &vfC13Query{Query: q, vfC13Core: core}
+		fq, setRT = f, func(p RetryPolicy) { f.vrt = p }
+	}
 	var real RetryPolicy
 	switch cfg.Polkind {
 	case "budget":
@@ -576,7 +631,7 @@ func vfC13NewRun(cfg vfC13Cfg, seed int64, free bool, polName string, roundRobin
 		real = p
 	}
 	if real != nil {
-		fq.rt = &vfC13RT{run: r, real: real}
+		setRT(&vfC13RT{run: r, real: real})
 	}
 	return r, ex, fq
 }
@@ -617,7 +672,9 @@ var vfC13Hangs int32
 
 // vfC13Replay forces the real executor through the model behaviour c.Hist.
 func vfC13Replay(c *vfC13Case, polName string) (sum vfC13Summary, begin vfC13Begin, log []vfC13Ev) {
-	r, ex, fq := vfC13NewRun(c.Cfg, int64(c.Id), false, polName, false)
+	// statement kind and observer vary with the case number, independently of the policy (id % 3)
+	stmt := []string{"query", "batch"}[(c.Id/3)%2]
+	r, ex, fq := vfC13NewRun(c.Cfg, int64(c.Id), false, polName, false, stmt, (c.Id/6)%2 == 1)
 	sum = vfC13Summary{Id: c.Id, Mode: "replay", Policy: polName}
 	for _, ev := range c.Hist {
 		if ev.Ev == "end" {
@@ -828,7 +885,7 @@ func vfC13SameHist(a, b []vfC13Ev) bool {
 
 func (r *vfC13Run) begin(id int, mode string) vfC13Begin {
 	b := vfC13Begin{Ev: "begin", Id: id, Hosts: append([]string{}, r.offered...), Polkind: r.cfg.Polkind, Poln: r.cfg.Poln,
-		Allow: append([]int{}, r.cfg.Allow...), K: r.cfg.K, Idem: r.cfg.Idem, Policy: r.polName, Mode: mode}
+		Allow: append([]int{}, r.cfg.Allow...), K: r.cfg.K, Idem: r.cfg.Idem, Policy: r.polName, Mode: mode, Stmt: r.stmt, Obs: r.observer}
 	return b
 }
 
@@ -862,7 +919,8 @@ func vfC13Free(id int, seed int64) (sum vfC13Summary, begin vfC13Begin, log []vf
 		cfg.Poln = rng.Intn(4)
 	}
 	roundRobin := rng.Intn(2) == 0
-	r, ex, fq := vfC13NewRun(cfg, seed, true, polName, roundRobin)
+	stmt := []string{"query", "batch"}[rng.Intn(2)]
+	r, ex, fq := vfC13NewRun(cfg, seed, true, polName, roundRobin, stmt, rng.Intn(2) == 0)
 	sum = vfC13Summary{Id: id, Mode: "free", Policy: polName}
 	if rng.Intn(4) == 0 {
 		r.maxDelay = 5 * time.Microsecond
